@@ -25,7 +25,7 @@ use radicle_surf::diff::{
 
 const CLASS_WS: &str = "c30-line-with-trailing-whitespace";
 const CLASS_MOVED: &str = "c30-renamed-file-not-decodable";
-const CLASS_PATH: &str = "c30-path-with-edge-whitespace";
+const CLASS_PATH: &str = "c30-path-needs-quoting";
 const CLASS_HEADER: &str = "c30-hunk-header-roundtrip";
 const CLASS_HUNK: &str = "c30-hunk-roundtrip";
 const CLASS_DIFF: &str = "c30-diff-roundtrip";
@@ -354,7 +354,7 @@ const PATHS: &[&str] = &[
 ];
 const ODD_PATHS: &[&str] = &[
     "with space.txt", "dir with space/f.txt", "quote\"q.txt", "uni/\u{e9}t\u{e9}.txt", "back\\slash", "tab\tname",
-    "-dash", "b/x", "a/b/a", "trailing ", "\u{6f22}\u{5b57}.md", "semi;colon", "a b/c d.txt",
+    "-dash", "b/x", "a/b/a", "trailing ", "\u{6f22}\u{5b57}.md", "semi;colon", "a b/c d.txt", " lead.txt", "dir /x", "x\ny", "a\rb", "\u{fc} ", "\"", "b/b/x", "a b", "x b/x", "tab\t", "\u{a0}nb", "dev/null", "sp  sp",
 ];
 
 #[derive(Clone, Debug)]
@@ -458,10 +458,13 @@ fn ws_only_difference(a: &[u8], b: &[u8]) -> bool {
     a != b && a.trim_end() == b.trim_end()
 }
 
-fn path_has_edge_whitespace(f: &FileDiff) -> bool {
+/// The paths the encoder would have to quote (it prints them verbatim; the TODO in
+/// `FileHeader::from`): a path that ends in whitespace (libgit2 trims it) or
+/// contains a newline (libgit2 rejects the header).
+fn path_needs_quoting(f: &FileDiff) -> bool {
     let odd = |p: &Path| {
         let s = p.to_string_lossy();
-        s.trim() != s
+        s.trim_end() != s || s.contains('\n')
     };
     match f {
         FileDiff::Moved(m) => odd(&m.old_path) || odd(&m.new_path),
@@ -536,7 +539,7 @@ fn compare_file(o: &FileDiff, d: &FileDiff) -> Vec<(DiffKind, String)> {
 fn classify(o: &FileDiff, ds: &[(DiffKind, String)]) -> &'static str {
     if matches!(o, FileDiff::Moved(_)) {
         CLASS_MOVED
-    } else if ds.iter().all(|d| d.0 == DiffKind::Meta) && path_has_edge_whitespace(o) {
+    } else if ds.iter().all(|d| d.0 == DiffKind::Meta) && path_needs_quoting(o) {
         CLASS_PATH
     } else if ds.iter().all(|d| d.0 == DiffKind::TrailingWs) {
         CLASS_WS
@@ -814,7 +817,10 @@ fn tree_case(run: &mut Run, repo: &git2::Repository, id: &str, r: &mut Rng) {
                     }
                 }
             }
-            Ok(Err(e)) => failures.push((CLASS_DIFF.into(), format!("whole diff does not decode: {e}"))),
+            Ok(Err(e)) => {
+                let class = if files.iter().any(|f| path_needs_quoting(f)) { CLASS_PATH } else { CLASS_DIFF };
+                failures.push((class.into(), format!("whole diff does not decode: {e}")))
+            }
             Err(p) => failures.push((CLASS_PANIC.into(), format!("Diff::parse panicked: {p}"))),
         }
     } else {
@@ -849,7 +855,13 @@ fn tree_case(run: &mut Run, repo: &git2::Repository, id: &str, r: &mut Rng) {
                 }
             }
             Ok(Err(e)) => {
-                let class = if matches!(f, FileDiff::Moved(_)) { CLASS_MOVED } else { CLASS_DIFF };
+                let class = if matches!(f, FileDiff::Moved(_)) {
+                    CLASS_MOVED
+                } else if path_needs_quoting(f) {
+                    CLASS_PATH
+                } else {
+                    CLASS_DIFF
+                };
                 failures.push((class.into(), format!("{} file {:?} does not decode: {e}", kind_of(f), f.path())));
             }
             Err(p) => failures.push((CLASS_PANIC.into(), format!("Diff::parse panicked: {p}"))),
